@@ -47,19 +47,22 @@ type ConcSpec struct {
 
 // Scenario is one complete module-system life: Register…, Start, script, Shutdown.
 type Scenario struct {
-	ID          int       `json:"id"`
-	Family      string    `json:"family"`
-	FailPhase   string    `json:"fail_phase"` // none | prep | start | stop | mixed
-	Delays      string    `json:"delays"`
-	Mods        []ModSpec `json:"mods"` // in registration order
-	Mgmt        bool      `json:"mgmt"`
-	Notify      bool      `json:"notify,omitempty"`  // register a change-notify function
-	NilMid      string    `json:"nil_mid,omitempty"` // module without stop function placed inside a dependency path
-	Conc        *ConcSpec `json:"conc,omitempty"`
-	HookDelayUs int       `json:"hook_delay_us,omitempty"` // delay at modules.ctrlfn.done after a start routine returned
-	InitEnable  []string  `json:"init_enable,omitempty"`
-	Steps       []Step    `json:"steps,omitempty"`
-	Build       string    `json:"build"` // plain | race
+	ID        int       `json:"id"`
+	Family    string    `json:"family"`
+	FailPhase string    `json:"fail_phase"` // none | prep | start | stop | mixed
+	Delays    string    `json:"delays"`
+	Mods      []ModSpec `json:"mods"` // in registration order
+	Mgmt      bool      `json:"mgmt"`
+	Notify    bool      `json:"notify,omitempty"`  // register a change-notify function
+	NilMid    string    `json:"nil_mid,omitempty"` // module without stop function placed inside a dependency path
+	Conc      *ConcSpec `json:"conc,omitempty"`
+	// Enable/Disable calls made during Start: from the global prep function
+	// (key "globalprep") or from the prep routine of a module (key = module name)
+	PrepOps     map[string][]Step `json:"prep_ops,omitempty"`
+	HookDelayUs int               `json:"hook_delay_us,omitempty"` // delay at modules.ctrlfn.done after a start routine returned
+	InitEnable  []string          `json:"init_enable,omitempty"`
+	Steps       []Step            `json:"steps,omitempty"`
+	Build       string            `json:"build"` // plain | race
 }
 
 var families = []string{"single", "chain", "fanin", "fanout", "diamond", "layered", "forest", "random"}
@@ -219,12 +222,15 @@ func genScenario(seed uint64, tier string, id int) Scenario {
 	// rest draw both at random: every combination is reached by construction.
 	grid := len(families) * len(failPhases)
 	if id >= 2*grid {
-		// two of every ten further cases have several clients calling concurrently
+		// two of every ten further cases have several clients calling concurrently, one
+		// switches modules during the preparation stage of Start
 		switch id % 10 {
 		case 3:
 			return genConcScenario(r, maxN, id, "shutdown")
 		case 7:
 			return genConcScenario(r, maxN, id, "manage")
+		case 5:
+			return genPrepSwitchScenario(r, maxN, id)
 		}
 	}
 	if id < 2*grid {
@@ -352,6 +358,45 @@ func genScenario(seed uint64, tier string, id int) Scenario {
 		for i := 0; i < n; i++ {
 			if r.Chance(1, 2) {
 				sc.InitEnable = append(sc.InitEnable, modName(i))
+			}
+		}
+		// a program can switch modules from the global prep function or from a prep
+		// routine (the first code that runs after flag parsing); every module is switched
+		// by at most one of them, so the calls on one module are ordered
+		if r.Chance(2, 5) {
+			var sources []string
+			sources = append(sources, "globalprep", "globalprep")
+			for _, m := range sc.Mods {
+				if !m.Prep.Nil {
+					sources = append(sources, m.Name)
+				}
+			}
+			isInit := map[string]bool{}
+			for _, m := range sc.InitEnable {
+				isInit[m] = true
+			}
+			perm := make([]int, n)
+			for i := range perm {
+				perm[i] = i
+			}
+			vlib.Shuffle(r, perm)
+			k := r.Range(1, 3)
+			sc.PrepOps = map[string][]Step{}
+			for _, t := range perm {
+				if k == 0 {
+					break
+				}
+				target := modName(t)
+				op := "enable"
+				if isInit[target] && r.Chance(3, 4) {
+					op = "disable"
+				}
+				src := sources[r.Intn(len(sources))]
+				if src == target {
+					src = "globalprep"
+				}
+				sc.PrepOps[src] = append(sc.PrepOps[src], Step{Op: op, Mod: target})
+				k--
 			}
 		}
 		rounds := r.Range(0, 6)
@@ -497,6 +542,71 @@ func genConcScenario(r *vlib.Rand, maxN, id int, kind string) Scenario {
 	return sc
 }
 
+// genPrepSwitchScenario builds a life with management on in which nothing fails and
+// the program changes its mind during Start: a module X that was enabled before Start
+// and has dependencies is disabled from the global prep function or from the prep
+// routine of another module (sometimes another module is enabled there as well).
+func genPrepSwitchScenario(r *vlib.Rand, maxN, id int) Scenario {
+	sc := Scenario{ID: id, FailPhase: "none", Delays: "small", Mgmt: true, Notify: r.Bool()}
+	var deps [][]int
+	for {
+		sc.Family = vlib.Pick(r, "chain", "fanin", "fanout", "diamond", "layered", "forest", "random")
+		deps = genGraph(r, sc.Family, maxN)
+		edges := 0
+		for _, d := range deps {
+			edges += len(d)
+		}
+		if len(deps) >= 3 && edges > 0 {
+			break
+		}
+	}
+	n := len(deps)
+	mods := make([]ModSpec, n)
+	var withDeps []int
+	for i := 0; i < n; i++ {
+		ms := ModSpec{Name: modName(i)}
+		for _, d := range deps[i] {
+			ms.Deps = append(ms.Deps, modName(d))
+		}
+		ms.Prep = Behav{DelayUs: r.Range(0, 2000)}
+		ms.Start = Behav{DelayUs: r.Range(0, 3000)}
+		ms.Stop = Behav{DelayUs: r.Range(0, 3000)}
+		mods[i] = ms
+		if len(deps[i]) > 0 {
+			withDeps = append(withDeps, i)
+		}
+	}
+	x := withDeps[r.Intn(len(withDeps))]
+	sc.InitEnable = []string{modName(x)}
+	var others []int
+	for i := 0; i < n; i++ {
+		if i != x {
+			others = append(others, i)
+			if r.Chance(1, 4) {
+				sc.InitEnable = append(sc.InitEnable, modName(i))
+			}
+		}
+	}
+	vlib.Shuffle(r, sc.InitEnable)
+	src := "globalprep"
+	if r.Bool() {
+		src = modName(others[r.Intn(len(others))])
+	}
+	sc.PrepOps = map[string][]Step{src: {{Op: "disable", Mod: modName(x)}}}
+	if r.Chance(1, 3) {
+		y := others[r.Intn(len(others))]
+		src2 := vlib.Pick(r, "globalprep", modName(x))
+		sc.PrepOps[src2] = append(sc.PrepOps[src2], Step{Op: "enable", Mod: modName(y)})
+	}
+	for rounds := r.Range(0, 2); rounds > 0; rounds-- {
+		op := vlib.Pick(r, "enable", "enable", "disable")
+		sc.Steps = append(sc.Steps, Step{Op: op, Mod: modName(r.Intn(n))}, Step{Op: "manage"})
+	}
+	vlib.Shuffle(r, mods)
+	sc.Mods = mods
+	return sc
+}
+
 // signature identifies graph × behaviours × management script (module names are
 // positional, so equal shapes generated the same way get equal names).
 func (sc *Scenario) signature() string {
@@ -527,6 +637,18 @@ func (sc *Scenario) signature() string {
 	sb.WriteString(strings.Join(ie, ","))
 	for _, s := range sc.Steps {
 		fmt.Fprintf(&sb, ";%s:%s", s.Op, s.Mod)
+	}
+	if len(sc.PrepOps) > 0 {
+		var ks []string
+		for k := range sc.PrepOps {
+			ks = append(ks, k)
+		}
+		sort.Strings(ks)
+		for _, k := range ks {
+			for _, st := range sc.PrepOps[k] {
+				fmt.Fprintf(&sb, ";%s>%s:%s", k, st.Op, st.Mod)
+			}
+		}
 	}
 	if sc.Conc != nil {
 		fmt.Fprintf(&sb, ";conc=%s/%s", sc.Conc.Kind, sc.Conc.Park)
